@@ -369,6 +369,34 @@ def _find_group(prov):
     return found
 
 
+def _fold_heading_levels(ctx):
+    """[(line, what the tokenizer makes of it)] for the ATX lines whose level is not the one of the specification."""
+    from .. import blockproto
+    from ..model import PKG
+    model = ctx.model
+    tb = model.func('block_tokenizer.tokenize_block')
+    mt = model.func('block_tokenizer.make_tokens')
+    ti = model.func('span_token.tokenize_inner')
+    types = blockproto.default_block_types(ctx)
+    rows = [('#' * n + ' a\n', n if n <= 6 else None) for n in range(1, 8)] + \
+        [('#\n', 1), ('######\n', 6), ('   ## b ##\n', 2), ('### c #\n', 3), ('#\ta\n', 1), ('#a\n', None), ('    # a\n', None)]
+    bad = []
+    for line, want in rows:
+        it = Interp(model, loop_bound=16, while_bound=16)
+        it.reset_run(Oracle())
+        it.gstate[(PKG + '.block_token', '_token_types')] = list(types)
+        it.func_hooks[ti.qualname] = lambda interp, fi, args, kwargs: []
+        try:
+            toks = it.call_function(mt, [it.call_function(tb, [[line], list(types)], {})], {})
+            t = toks[0] if isinstance(toks, list) and toks else None
+            got = t.attrs.get('level') if isinstance(t, Obj) and t.cls.name == 'Heading' else None
+        except Raised as e:
+            got = 'raises %s' % e.exc.kind
+        if got != want or isinstance(got, bool):
+            bad.append((line, got))
+    return bad
+
+
 def rule_scalar_range(ctx, rep, facts):
     model = ctx.model
     rule = 'R-SCALAR-RANGE'
@@ -378,10 +406,20 @@ def rule_scalar_range(ctx, rep, facts):
     vals = facts.attr_values(h, 'level')
     if not vals:
         raise AnalysisError('no Heading instance in the constructor facts')
+    folded = None
     for v in vals:
         ok = False
         detail = repr(v)
-        if isinstance(v, AbsInt) and isinstance(v.tag, tuple) and v.tag[0] == 'len':
+        shaped = isinstance(v, int) or (isinstance(v, AbsInt) and isinstance(v.tag, tuple) and v.tag[0] == 'len' and _find_group(v.tag))
+        if not shaped:
+            # the level is not the length of a regex group (a start written by hand): the block tokenizer is folded on
+            # one line per opening sequence of 1-7 '#', with and without indentation and closing sequence
+            if folded is None:
+                folded = _fold_heading_levels(ctx)
+            ok = not folded
+            detail = 'computed by hand; folding the tokenizer on ATX lines %s' % ('gives the levels of the specification' if ok else
+                                                                                  'gives %s' % folded[:3])
+        elif isinstance(v, AbsInt) and isinstance(v.tag, tuple) and v.tag[0] == 'len':
             gs = _find_group(v.tag)
             if gs:
                 g, pattern = gs[0]
